@@ -128,6 +128,21 @@ template <int N> static inline void drain(queue_t* q, int n) {
 }
 template <> inline void drain<0>(queue_t*, int) {}
 extern "C" void vp_thr_drain(queue_t* q, int n) { drain<NDRAIN>(q, n); }
+#if BOUNDED
+// sequential phase after the concurrent one (scenario option POST_PUSH): up to two more pushes, run as a single model thread for the same
+// reason as the drain (a push that would sleep or spin parks = reported by the harness)
+extern "C" void vp_post_threw();
+extern "C" void vp_thr_post(queue_t* q, int n, unsigned v0, unsigned v1) {
+#if EXC
+  try {
+#endif
+    if (n > 0) { elem_t e; e.v = v0; q->push(e); }
+    if (n > 1) { elem_t e; e.v = v1; q->push(e); }
+#if EXC
+  } catch (...) { vp_post_threw(); }
+#endif
+}
+#endif
 
 // sequential helpers: build the pre-state with the real operations, inspect the final state
 extern "C" unsigned long vp_q_sizeof() { return sizeof(queue_t); }
